@@ -196,16 +196,19 @@ class TiledStridedLayoutAttr(MemRefLayoutAttr, Data[TiledStridedLayout]):
         else:
             el_bytes = 1
 
-        # to handle the dynamic case, we must first find the largest
-        # statically defined step, and then use that to calculate the
-        # dynamic steps
+        # to handle the dynamic case, we must first find the statically
+        # defined step that reaches the furthest (largest step * bound, a
+        # step with a larger value but a bound of 1 does not take up more
+        # space), and then use that to calculate the dynamic steps
         # if everything is dynamic, default to the most right stride (row-major-like)
         max_key = (tsl.dimension() - 1, tsl.tstrides[-1].depth() - 1)
         max_value = 0
+        max_extent = 0
         for dim, depth, stride in self.data:
-            if stride.step and stride.step > max_value:
+            if stride.step and stride.step * (stride.bound or 1) > max_extent:
                 max_key = (dim, depth)
                 max_value = stride.step
+                max_extent = stride.step * (stride.bound or 1)
         max_value = max_value * el_bytes
 
         # generate ops for the maximum
